@@ -428,6 +428,33 @@ class G:
             out.append(f"    y[0] += {self.const()}")
         return out
 
+    def m_bcast(self):
+        """scalar temporary set from a row/column value inside a 2-D nest and used by the
+        following statement (multi-level fission / lift_alloc / reorder_loops targets: the
+        temporary is invariant in one loop and varies with the other)."""
+        r = self.r
+        self.use("A", "C")
+        t = self.fresh("bt")
+        src = r.choice(["x[i]", "B[j]", "A[i, j]", "x[i] * 2.0"])
+        if "x[" in src:
+            self.use("x")
+        if "B[" in src:
+            self.use("B")
+        use = r.choice([f"C[i, j] = {t}", f"C[i, j] = {t} * A[i, j]", f"C[i, j] += {t}"])
+        where = r.choice(["out", "i", "j"])
+        inner = [f"{t} = {src}", use]
+        if r.random() < 0.3:
+            inner.append(f"{t} = 0.0")
+        if where == "j":
+            inner = [f"{t}: f32"] + inner
+        body_i = ["for j in seq(0, m):"] + ["    " + l for l in inner]
+        if where == "i":
+            body_i = [f"{t}: f32"] + body_i
+        out = ["for i in seq(0, n):"] + ["    " + l for l in body_i]
+        if where == "out":
+            out = [f"{t}: f32"] + out
+        return out
+
     def m_fold(self):
         self.use("x", "y")
         c = self.const()
@@ -441,7 +468,7 @@ class G:
     MOTIFS = [
         "elementwise", "nest2d", "temp", "accum", "stencil", "guard", "small", "vec4", "call", "window",
         "two_loops", "reduce_consts", "repeat", "padded_acc", "row_alloc", "masked", "shift_copy", "else_alloc",
-        "two_ifs", "instr_calls", "sliding", "temp2d", "fold", "prefix",
+        "two_ifs", "instr_calls", "sliding", "temp2d", "fold", "prefix", "bcast",
     ]
 
     # ops whose side conditions are decided by what the motif contains: the session
@@ -473,10 +500,32 @@ class G:
         "temp2d": ["unroll_buffer", "mult_dim", "rearrange_dim", "divide_dim", "reuse_buffer", "delete_buffer", "resize_dim", "fuse", "expand_dim"],
         "fold": ["fold_into_reduce", "split_write", "merge_writes", "commute_expr", "left_reassociate_expr", "bind_expr"],
         "prefix": ["fission", "autofission", "fuse", "reorder_stmts", "reorder_loops", "stage_mem", "lift_scope", "divide_loop", "merge_writes"],
+        "bcast": ["fission", "autofission", "lift_alloc", "sink_alloc", "autolift_alloc", "reorder_loops", "inline_assign", "expand_dim", "bind_expr", "lift_scope"],
         "config": ["bind_config", "write_config", "delete_config", "reorder_stmts", "fission", "inline", "call_eqv", "fuse"],
         "cfg_rwo": ["delete_config", "write_config", "reorder_stmts", "bind_config", "fission", "lift_scope"],
         "cfg_callee": ["inline", "call_eqv", "delete_config", "write_config", "reorder_stmts", "bind_config"],
     }
+
+    # primitives that apply almost anywhere: paired with generic motifs in the strata
+    GENERIC_OPS = ["rename", "make_instr", "set_precision", "set_window", "set_memory", "insert_pass", "delete_pass", "rewrite_expr",
+                   "commute_expr", "left_reassociate_expr", "simplify", "insert_noop_call", "add_unsafe_guard", "mult_loops",
+                   "parallelize_loop", "extract_subproc", "eliminate_dead_code", "divide_dim", "mult_dim", "rearrange_dim"]
+    GENERIC_MOTIFS = ["elementwise", "nest2d", "temp", "guard", "temp2d", "accum"]
+
+    @classmethod
+    def strata(cls, with_cfg=False):
+        """(motif, primitive) pairs for stratified sessions."""
+        cfg_m = ("config", "cfg_rwo", "cfg_callee")
+        out = set()
+        for m, ops in cls.AFFINITY.items():
+            if m in cfg_m and not with_cfg:
+                continue
+            for o in ops:
+                out.add((m, o))
+        for o in cls.GENERIC_OPS:
+            for m in cls.GENERIC_MOTIFS:
+                out.add((m, o))
+        return sorted(out)
 
     def program(self, name="p"):
         r = self.r
@@ -492,8 +541,12 @@ class G:
         n_m = r.choice([1, 2, 2, 3])
         body = []
         picked = []
-        for _ in range(n_m):
-            m = r.choice(motifs)
+        forced = list(self.cfg.get("motifs") or [])
+        if forced:
+            # stratified sessions: the named motif(s), sometimes followed by one more
+            n_m = len(forced) + (1 if r.random() < 0.3 else 0)
+        for k in range(n_m):
+            m = forced[k] if k < len(forced) else r.choice(motifs)
             picked.append(m)
             body += getattr(self, "m_" + m)()
         # occasional wrapping of everything in an outer const loop or a guard
